@@ -14,7 +14,7 @@ from harness import _fdiff as F
 PROPERTY = "C01"
 
 II = ("classify", "chained", "lookup", "loops", "comprehension", "gen", "closure", "useclass", "subscripts", "floats",
-      "multiline", "initer", "slices", "neonly", "cmpnone", "tiny", "displays", "tryends", "superattr", "falsyexc", "withtry", "tryreturn", "oneline")
+      "multiline", "initer", "slices", "neonly", "cmpnone", "tiny", "displays", "tryends", "superattr", "falsyexc", "withtry", "tryreturn", "oneline", "boollen")
 SS = ("strfuncs",)
 SSS = ("prefixes", "prefixarg")
 def _args(fname, mask, args):
@@ -50,7 +50,7 @@ def CHECK(fname, mask, args):
 
 def h_ii(f: int, mask: int, a: int, b: int) -> bool:
     """
-    pre: 0 <= f < 23 and 0 <= mask < 8 and -3 <= a <= 3 and -3 <= b <= 3
+    pre: 0 <= f < 24 and 0 <= mask < 8 and -3 <= a <= 3 and -3 <= b <= 3
     post: _
     """
     return reach(CHECK(pick(II, f), mask, (a, b)))
@@ -139,7 +139,7 @@ META = {
     "functions": ["InstrumentationTransformer.instrument_code", "Branch/Line/Checked/DynamicSeeding instrumentation adapters "
                   "(python3_10/11/12 chain)", "Python312InstrumentationInstructionsGenerator.*", "ExecutionTracer.executed_*/"
                   "track_*", "DynamicConstantProvider.add_value/add_value_for_strings/add_concatenated_value"],
-    "bounds": {"corpus": "corpus/C01_funcs.py (28 functions)", "ints": "[-3,3]", "str": "len <= 2 (tuple members len <= 1)",
+    "bounds": {"corpus": "corpus/C01_funcs.py (29 functions)", "ints": "[-3,3]", "str": "len <= 2 (tuple members len <= 1)",
                "metric subsets": "all 8, dynamic seeding always on"},
     "outside": ["programs outside the corpus, stdlib code objects", "Python 3.10/3.11/3.13/3.14 generators (not constructible "
                 "under 3.12)", "side effects on arguments/globals/stdout", "huge ints / NaN arguments (covered at callback level "
